@@ -10,6 +10,17 @@ saying whether the call may / must raise.  `prefix_states` gives the states admi
 a *rejected* call (unchanged, or a prefix of a documented element-by-element batch).
 """
 import copy as _copy
+import math
+
+
+def weq(a, b):
+    """weights are equal up to the last bits (sums of non-dyadic floats may be associated differently)"""
+    if a == b:
+        return True
+    try:
+        return math.isclose(a, b, rel_tol=1e-12, abs_tol=0.0)
+    except TypeError:
+        return False
 
 
 class State:
@@ -45,7 +56,7 @@ class State:
         if set(self.edges) != set(other.edges):
             d.append("edges")
         else:
-            if any(self.edges[k][0] != other.edges[k][0] for k in self.edges):
+            if any(not weq(self.edges[k][0], other.edges[k][0]) for k in self.edges):
                 d.append("weights")
             if any(self.edges[k][1] != other.edges[k][1] for k in self.edges):
                 d.append("edge_md")
@@ -92,9 +103,9 @@ class Flex:
         if not (need <= set(obs.edges) <= set(self.edges)):
             d.append("edges")
         else:
-            if any(all(obs.edges[k][0] != a[0] for a in self.edges[k]) for k in obs.edges):
+            if any(all(not weq(obs.edges[k][0], a[0]) for a in self.edges[k]) for k in obs.edges):
                 d.append("weights")
-            elif any(all(obs.edges[k] != a for a in self.edges[k]) for k in obs.edges):
+            elif any(all(not (weq(obs.edges[k][0], a[0]) and obs.edges[k][1] == a[1]) for a in self.edges[k]) for k in obs.edges):
                 d.append("edge_md")
         return d
 
